@@ -32,37 +32,39 @@ Proof. unfold icmp_parse; bdestr; discriminate. Qed.
 
 Definition ip_hdrlen (b : bytes) : Z := (byte_at b 0 mod 16) * 4.
 
-Lemma ipv4_parse_panic_iff b s :
-  ipv4_parse b = Panic s <->
-  s = SITE_IP_TOTLEN /\ 20 <= zlen b /\ ip_hdrlen b <= zlen b /\ u16_at b 2 < 20.
+Lemma ipv4_parse_no_panic b s : ipv4_parse b <> Panic s.
+Proof. unfold ipv4_parse; bdestr; discriminate. Qed.
+
+(* accepted exactly when the lengths are consistent; the payload is b[20:TotalLen] *)
+Lemma ipv4_parse_ok_iff b :
+  (exists h, ipv4_parse b = Ok h) <->
+  20 <= zlen b /\ ip_hdrlen b <= zlen b /\ 20 <= u16_at b 2 <= zlen b.
 Proof.
   unfold ipv4_parse, ip_hdrlen.
   destruct (zlen b <? 20) eqn:E1.
-  { split; [discriminate|]. intros (_ & H & _); lia. }
+  { split; [intros [h H]; discriminate|lia]. }
   destruct ((byte_at b 0 mod 16) * 4 >? zlen b) eqn:E2.
-  { split; [discriminate|]. intros (_ & _ & H & _); lia. }
+  { split; [intros [h H]; discriminate|lia]. }
   destruct (u16_at b 2 >? zlen b) eqn:E3.
-  { split; [discriminate|]. intros (_ & _ & _ & H); lia. }
+  { split; [intros [h H]; discriminate|lia]. }
   destruct (u16_at b 2 <? 20) eqn:E4.
-  - split.
-    + intros H; inversion H. repeat split; lia.
-    + intros (-> & _); reflexivity.
-  - split; [discriminate|]. intros (_ & _ & _ & H); lia.
+  { split; [intros [h H]; discriminate|lia]. }
+  split; [lia|eauto].
 Qed.
 
-Lemma ipv4_parse_ok_when b :
-  20 <= zlen b -> ip_hdrlen b <= zlen b -> 20 <= u16_at b 2 <= zlen b ->
-  exists h, ipv4_parse b = Ok h /\ zlen (ip_payload h) = u16_at b 2 - 20.
+Lemma ipv4_parse_payload b h :
+  ipv4_parse b = Ok h -> zlen (ip_payload h) = u16_at b 2 - 20 /\ 20 <= u16_at b 2 <= zlen b.
 Proof.
-  intros H1 H2 H3. unfold ipv4_parse, ip_hdrlen in *.
-  destruct (zlen b <? 20) eqn:E1; [lia|].
-  destruct ((byte_at b 0 mod 16) * 4 >? zlen b) eqn:E2; [lia|].
-  destruct (u16_at b 2 >? zlen b) eqn:E3; [lia|].
-  destruct (u16_at b 2 <? 20) eqn:E4; [lia|].
-  eexists; split; [reflexivity|]. cbn [ip_payload].
-  apply slice_length; lia.
+  unfold ipv4_parse.
+  destruct (zlen b <? 20) eqn:E1; [discriminate|].
+  destruct ((byte_at b 0 mod 16) * 4 >? zlen b) eqn:E2; [discriminate|].
+  destruct (u16_at b 2 >? zlen b) eqn:E3; [discriminate|].
+  destruct (u16_at b 2 <? 20) eqn:E4; [discriminate|].
+  intros H; inversion H; subst; cbn [ip_payload]. split; [apply slice_length; lia|lia].
 Qed.
 
+(* arp.Unmarshal is unchanged and can still panic; handleARP is unreachable (doARP is
+   never set), so the receive loop never calls it *)
 Lemma arp_parse_panic_iff d s :
   arp_parse d = Panic s <->
   s = SITE_ARP /\ 28 <= zlen d /\ byte_at d 4 <= 20 /\ byte_at d 5 <= 20 /\
@@ -94,113 +96,93 @@ Proof.
     apply IH. rewrite skipn_length. cbn [length] in *. lia.
 Qed.
 
-(* the walk ends on a single byte that is neither End-of-list nor Nop *)
+Lemma tcp_opts_no_panic fuel : forall d n s, tcp_opts fuel d n <> Panic s.
+Proof.
+  induction fuel as [|f IH]; intros d n s.
+  - destruct d; cbn; discriminate.
+  - destruct d as [|k r]; cbn [tcp_opts]; [discriminate|].
+    destruct (k =? 0)%N; [discriminate|].
+    destruct (k =? 1)%N; [apply IH|].
+    destruct r as [|l r']; [discriminate|].
+    destruct (l <? 2)%N; [discriminate|].
+    destruct (Z.of_N l >? zlen (k :: l :: r')); [discriminate|]. apply IH.
+Qed.
+
+(* the walk ends on a single byte that is neither End-of-list nor Nop: the layout on
+   which the unrepaired parser indexed data[1] out of range *)
 Inductive lone_kind : bytes -> Prop :=
 | lone_last k : (2 <= k)%N -> lone_kind [k]
 | lone_nop r : lone_kind r -> lone_kind (1%N :: r)
 | lone_skip k l r : (2 <= k)%N -> (2 <= l)%N -> Z.of_N l <= zlen (k :: l :: r) ->
                     lone_kind (skipn (N.to_nat l) (k :: l :: r)) -> lone_kind (k :: l :: r).
 
-Lemma tcp_opts_panic_iff fuel : forall d n s,
-  (length d <= fuel)%nat ->
-  (tcp_opts fuel d n = Panic s <-> s = SITE_TCP_OPT /\ lone_kind d).
+(* the repaired walk reports exactly those layouts with its new error *)
+Lemma tcp_opts_lone_iff fuel : forall d n,
+  (length d <= fuel)%nat -> (tcp_opts fuel d n = Err 5 <-> lone_kind d).
 Proof.
-  induction fuel as [|f IH]; intros d n s Hl.
-  - destruct d; cbn in *; [|lia]. split; [discriminate|]. intros [_ H]; inversion H.
+  induction fuel as [|f IH]; intros d n Hl.
+  - destruct d; cbn in *; [|lia]. split; [discriminate|]. intros H; inversion H.
   - destruct d as [|k r]; cbn [tcp_opts].
-    { split; [discriminate|]. intros [_ H]; inversion H. }
+    { split; [discriminate|]. intros H; inversion H. }
     cbn [length] in Hl.
     destruct (k =? 0)%N eqn:E0.
-    { split; [discriminate|]. intros [_ H]. inversion H; subst; lia. }
+    { split; [discriminate|]. intros H. inversion H; subst; lia. }
     destruct (k =? 1)%N eqn:E1.
     { assert (k = 1%N) by lia; subst k. rewrite IH by lia. split.
-      - intros [-> H]; split; [reflexivity|constructor; exact H].
-      - intros [-> H]; split; [reflexivity|]. inversion H; subst; try lia; assumption. }
+      - intros H; constructor; exact H.
+      - intros H. inversion H; subst; try lia; assumption. }
     destruct r as [|l r'].
     { split.
-      - intros H; inversion H; split; [reflexivity|constructor; lia].
-      - intros [-> _]; reflexivity. }
+      - intros _; constructor; lia.
+      - intros _; reflexivity. }
     destruct (l <? 2)%N eqn:El.
-    { split; [discriminate|]. intros [_ H]; inversion H; subst; lia. }
+    { split; [discriminate|]. intros H; inversion H; subst; lia. }
     destruct (Z.of_N l >? zlen (k :: l :: r')) eqn:Eg.
-    { split; [discriminate|]. intros [_ H]; inversion H; subst; lia. }
+    { split; [discriminate|]. intros H; inversion H; subst; lia. }
     rewrite IH.
     + split.
-      * intros [-> H]; split; [reflexivity|]. apply lone_skip; try lia; exact H.
-      * intros [-> H]; split; [reflexivity|]. inversion H; subst; try lia; assumption.
+      * intros H. apply lone_skip; try lia; exact H.
+      * intros H. inversion H; subst; try lia; assumption.
     + rewrite skipn_length. cbn [length] in *. lia.
 Qed.
 
 Definition tcp_off (d : bytes) : Z := byte_at d 12 / 16.
 Definition tcp_optbytes (d : bytes) : bytes := slice d 20 (tcp_off d * 4).
 
-Lemma tcp_parse_panic_iff d s :
-  tcp_parse d = TPanic s <->
-  (s = SITE_TCP_SHORT /\ zlen d < 20) \/
-  (s = SITE_TCP_OPT /\ 20 <= zlen d /\ 5 <= tcp_off d /\ tcp_off d * 4 <= zlen d /\
-   lone_kind (tcp_optbytes d)).
+Lemma tcp_parse_no_panic d s : tcp_parse d <> TPanic s.
 Proof.
-  unfold tcp_parse, tcp_off, tcp_optbytes.
-  destruct (zlen d <? 20) eqn:E1.
-  { split.
-    - intros H; inversion H; left; split; [reflexivity|lia].
-    - intros [[-> _]|(_ & H & _)]; [reflexivity|lia]. }
-  destruct (byte_at d 12 / 16 <? 5) eqn:E2.
-  { split; [discriminate|]. intros [[_ H]|(_ & _ & H & _)]; lia. }
-  destruct (byte_at d 12 / 16 * 4 >? zlen d) eqn:E3.
-  { split; [discriminate|]. intros [[_ H]|(_ & _ & _ & H & _)]; lia. }
+  unfold tcp_parse.
+  destruct (zlen d <? 20); [discriminate|].
+  destruct (byte_at d 12 / 16 <? 5); [discriminate|].
+  destruct (byte_at d 12 / 16 * 4 >? zlen d); [discriminate|].
   set (o := slice d 20 (byte_at d 12 / 16 * 4)).
-  pose proof (tcp_opts_panic_iff (length o) o 0) as P.
-  destruct (tcp_opts (length o) o 0) as [n|c|s'] eqn:Eo.
-  - split; [discriminate|]. intros [[_ H]|(-> & _ & _ & _ & H)]; [lia|].
-    specialize (P SITE_TCP_OPT (le_n _)). destruct P as [_ P]. specialize (P (conj eq_refl H)). discriminate.
-  - split; [discriminate|]. intros [[_ H]|(-> & _ & _ & _ & H)]; [lia|].
-    specialize (P SITE_TCP_OPT (le_n _)). destruct P as [_ P]. specialize (P (conj eq_refl H)). discriminate.
-  - specialize (P s' (le_n _)). destruct P as [P _]. destruct (P eq_refl) as [-> L].
-    split.
-    + intros H; inversion H; right; repeat split; try lia; exact L.
-    + intros [[_ H]|(-> & _)]; [lia|reflexivity].
+  destruct (tcp_opts (length o) o 0) as [n|c|s'] eqn:Eo; try discriminate.
+  exfalso; eapply tcp_opts_no_panic; eauto.
 Qed.
 
-(* no option bytes (data offset 5), or an option area of Nops / End-of-list only: no panic *)
-Lemma lone_kind_not_nil : ~ lone_kind [].
-Proof. intros H; inversion H. Qed.
+(* the two formerly fatal layouts are now errors *)
+Lemma tcp_parse_short d : zlen d < 20 -> exists h, tcp_parse d = THdr h 5.
+Proof. intros H; unfold tcp_parse. destruct (zlen d <? 20) eqn:E; [eauto|lia]. Qed.
 
-Lemma tcp_parse_plain_header_safe d s :
-  20 <= zlen d -> tcp_off d = 5 -> tcp_parse d <> TPanic s.
+Lemma tcp_parse_lone_kind d :
+  20 <= zlen d -> 5 <= tcp_off d -> tcp_off d * 4 <= zlen d -> lone_kind (tcp_optbytes d) ->
+  exists h, tcp_parse d = THdr h 5.
 Proof.
-  intros H1 H2 H. apply tcp_parse_panic_iff in H. destruct H as [[_ H]|(_ & _ & _ & _ & H)]; [lia|].
-  unfold tcp_optbytes in H. rewrite H2 in H. unfold slice in H. cbn in H. inversion H.
+  unfold tcp_parse, tcp_off, tcp_optbytes. intros H1 H2 H3 L.
+  destruct (zlen d <? 20) eqn:E1; [lia|].
+  destruct (byte_at d 12 / 16 <? 5) eqn:E2; [lia|].
+  destruct (byte_at d 12 / 16 * 4 >? zlen d) eqn:E3; [lia|].
+  set (o := slice d 20 (byte_at d 12 / 16 * 4)) in *.
+  apply (tcp_opts_lone_iff (length o) o 0 (le_n _)) in L. rewrite L. eauto.
 Qed.
 
 (* ------------------------------------------------------------------ one frame *)
 
-Definition all_resolvable (c : cfg) : Prop := forall ip, resolve c ip = true.
-
-Definition table_full (c : cfg) (tb : table) (now : Z) : Prop :=
-  find_free tb O = None /\ c_cap c <= zlen tb /\ find_idle tb O now = None.
-
-(* the IPv4 / TCP view of a frame, through the parsers only *)
+(* the IPv4 view of a frame, through the parsers only *)
 Definition ip_of (f : bytes) : option (res iphdr) :=
   match eth_parse f with
   | Ok e => if e_type e =? 2048 then Some (ipv4_parse (e_payload e)) else None
   | _ => None
-  end.
-Definition tcp_of (f : bytes) : option tres :=
-  match ip_of f with
-  | Some (Ok ip) => if ip_proto ip =? 6 then Some (tcp_parse (ip_payload ip)) else None
-  | _ => None
-  end.
-
-(* executable: the frame is in none of the three malformed-frame classes *)
-Definition frame_wf (f : bytes) : bool :=
-  match ip_of f with
-  | Some (Panic _) => false
-  | Some (Ok ip) =>
-      if ip_proto ip =? 6
-      then match tcp_parse (ip_payload ip) with TPanic _ => false | THdr _ _ => true end
-      else true
-  | _ => true
   end.
 
 Lemma set_nth_length {A} (l : list A) : forall i x, length (set_nth l i x) = length l.
@@ -222,13 +204,15 @@ Proof.
       * split; intros _; repeat split; lia.
 Qed.
 
+(* the table never outgrows its capacity *)
 Lemma table_add_len cap tb now k i tb' :
-  table_add cap tb now k = Some (i, tb') -> zlen tb <= zlen tb' <= zlen tb + 1.
+  table_add cap tb now k = Some (i, tb') ->
+  zlen tb <= zlen tb' /\ (zlen tb <= cap -> zlen tb' <= cap).
 Proof.
   unfold table_add. destruct (find_free tb 0).
   - intros H; inversion H; subst. rewrite zlen_set_nth; lia.
-  - destruct (zlen tb <? cap).
-    + intros H; inversion H; subst. rewrite zlen_app. unfold zlen at 3; cbn; lia.
+  - destruct (zlen tb <? cap) eqn:E.
+    + intros H; inversion H; subst. rewrite zlen_app. replace (zlen [Some k]) with 1 by reflexivity. lia.
     + destruct (find_idle tb 0 now); [|discriminate].
       intros H; inversion H; subst. rewrite zlen_set_nth; lia.
 Qed.
@@ -247,75 +231,49 @@ Proof.
   - exfalso; eapply udp_parse_no_panic; eauto.
 Qed.
 
-Lemma rx_tcp_fatal_inv c orc tb now ip s tb' :
-  rx_tcp c orc tb now ip = (RFatal s, tb') ->
-  ((s = SITE_TCP_SHORT \/ s = SITE_TCP_OPT) /\ tcp_parse (ip_payload ip) = TPanic s) \/
-  (s = SITE_NO_ARP /\ exists a, resolve c a = false) \/
-  (s = SITE_TABLE_FULL /\ table_full c tb now).
+Lemma rx_tcp_not_fatal c orc tb now ip : is_fatal (fst (rx_tcp c orc tb now ip)) = false.
 Proof.
   unfold rx_tcp. destruct (tcp_parse (ip_payload ip)) as [s0|h e] eqn:Ep.
-  - intros H; inversion H; subst. left. split; [|reflexivity].
-    apply tcp_parse_panic_iff in Ep. destruct Ep as [[-> _]|[-> _]]; auto.
-  - destruct (_ && negb (e =? 0)); [discriminate|].
-    destruct (negb (is_me c (ip_dst ip))); [discriminate|].
-    destruct (_ || _); [discriminate|].
+  - exfalso; eapply tcp_parse_no_panic; eauto.
+  - destruct (_ && negb (e =? 0)); [reflexivity|].
+    destruct (negb (is_me c (ip_dst ip))); [reflexivity|].
+    destruct (_ || _); [reflexivity|].
     destruct (has_flag h SYN && negb (has_flag h ACK)).
-    + destruct (table_add _ _ _ _) as [[i tb1]|] eqn:Ea.
-      * destruct (resolve c (ip_src ip)) eqn:Er; [discriminate|].
-        intros H; inversion H; subst. right; left; split; [reflexivity|eauto].
-      * intros H; inversion H; subst. right; right; split; [reflexivity|].
-        apply table_add_none_iff in Ea. exact Ea.
-    + destruct (table_get _ _ _ _ _ _) as [[i k]|]; [|discriminate].
-      destruct (f_beyond _); [discriminate|].
-      destruct (f_sends _ && negb (resolve c (k_sip k))) eqn:Es.
-      * intros H; inversion H; subst. right; left; split; [reflexivity|].
-        apply andb_true_iff in Es. destruct Es as [_ Es]. exists (k_sip k).
-        destruct (resolve c (k_sip k)); [discriminate|reflexivity].
-      * destruct (f_remove _); discriminate.
+    + destruct (table_add _ _ _ _) as [[i tb1]|]; reflexivity.
+    + destruct (table_get _ _ _ _ _ _) as [[i k]|]; [|reflexivity].
+      destruct (f_beyond _); [reflexivity|]. destruct (f_remove _); reflexivity.
 Qed.
 
-Lemma rx_fatal_inv c orc tb now f s tb' :
-  14 <= zlen f -> rx c orc tb now f = (RFatal s, tb') ->
-  (s = SITE_IP_TOTLEN /\ ip_of f = Some (Panic s)) \/
-  ((s = SITE_TCP_SHORT \/ s = SITE_TCP_OPT) /\ tcp_of f = Some (TPanic s)) \/
-  (s = SITE_NO_ARP /\ exists a, resolve c a = false) \/
-  (s = SITE_TABLE_FULL /\ table_full c tb now).
+(* no frame of at least 14 bytes is fatal: for every configuration (ARP/route tables,
+   own addresses, table size), every state table, every time and every behaviour of the
+   established-state machine *)
+Lemma rx_not_fatal c orc tb now f :
+  14 <= zlen f -> is_fatal (fst (rx c orc tb now f)) = false.
 Proof.
-  intros Hl. unfold rx, tcp_of, ip_of.
-  destruct (eth_parse_ok f Hl) as [e ->].
-  destruct (e_type e =? 2048); cbn [negb]; [|discriminate].
+  intros Hl. unfold rx. destruct (eth_parse_ok f Hl) as [e ->].
+  destruct (negb (e_type e =? 2048)); [reflexivity|].
   destruct (ipv4_parse (e_payload e)) as [ip|c0|s0] eqn:Ei.
-  - destruct (ip_proto ip =? 1) eqn:E1.
-    { intros H; inversion H. pose proof (rx_icmp_not_fatal c ip) as N. rewrite H1 in N; discriminate. }
-    destruct (ip_proto ip =? 6) eqn:E6.
-    { intros H. apply rx_tcp_fatal_inv in H. destruct H as [[Hs Hp]|[H|H]]; auto.
-      right; left; split; [exact Hs|]. rewrite Hp; reflexivity. }
-    destruct (ip_proto ip =? 17) eqn:E17; [|discriminate].
-    intros H; inversion H. pose proof (rx_udp_not_fatal c ip) as N. rewrite H1 in N; discriminate.
-  - discriminate.
-  - intros H; inversion H; subst. left.
-    apply ipv4_parse_panic_iff in Ei. destruct Ei as [-> _]. split; reflexivity.
+  - destruct (ip_proto ip =? 1); [apply rx_icmp_not_fatal|].
+    destruct (ip_proto ip =? 6); [apply rx_tcp_not_fatal|].
+    destruct (ip_proto ip =? 17); [apply rx_udp_not_fatal|reflexivity].
+  - reflexivity.
+  - exfalso; eapply ipv4_parse_no_panic; eauto.
 Qed.
 
-Lemma rx_safe c orc tb now f :
-  14 <= zlen f -> frame_wf f = true -> all_resolvable c -> ~ table_full c tb now ->
-  is_fatal (fst (rx c orc tb now f)) = false.
+(* and only a frame shorter than the link-layer header could be *)
+Lemma rx_fatal_inv c orc tb now f s tb' :
+  rx c orc tb now f = (RFatal s, tb') -> s = SITE_ETH /\ zlen f < 14.
 Proof.
-  intros Hl Hw Hr Hf. destruct (rx c orc tb now f) as [o tb'] eqn:E.
-  destruct o; try reflexivity. exfalso.
-  apply rx_fatal_inv in E; [|exact Hl].
-  destruct E as [[_ H]|[[_ H]|[[_ [a H]]|[_ H]]]].
-  - unfold frame_wf in Hw. rewrite H in Hw. discriminate.
-  - unfold frame_wf in Hw. unfold tcp_of in H.
-    destruct (ip_of f) as [[ip| |]|]; try discriminate.
-    destruct (ip_proto ip =? 6); [|discriminate].
-    inversion H as [H1]. rewrite H1 in Hw. discriminate.
-  - rewrite Hr in H; discriminate.
-  - contradiction.
+  intros H. destruct (Z_lt_le_dec (zlen f) 14) as [L|L].
+  - split; [|exact L]. unfold rx in H.
+    assert (E : eth_parse f = Panic SITE_ETH) by (apply eth_parse_panic_iff; split; [reflexivity|lia]).
+    rewrite E in H. inversion H; reflexivity.
+  - pose proof (rx_not_fatal c orc tb now f L) as N. rewrite H in N. discriminate.
 Qed.
 
 Lemma rx_table_len c orc tb now f o tb' :
-  rx c orc tb now f = (o, tb') -> zlen tb <= zlen tb' <= zlen tb + 1.
+  rx c orc tb now f = (o, tb') ->
+  zlen tb' <= zlen tb + 1 /\ (zlen tb <= c_cap c -> zlen tb' <= c_cap c).
 Proof.
   unfold rx.
   destruct (eth_parse f) as [e| |]; try (intros H; inversion H; subst; lia).
@@ -329,35 +287,49 @@ Proof.
   destruct (_ || _); [intros H; inversion H; subst; lia|].
   destruct (has_flag h SYN && negb (has_flag h ACK)).
   - destruct (table_add _ _ _ _) as [[i tb1]|] eqn:Ea; [|intros H; inversion H; subst; lia].
-    apply table_add_len in Ea.
-    destruct (resolve c (ip_src ip)); intros H; inversion H; subst; rewrite ?zlen_set_nth; lia.
+    pose proof Ea as Ea'. apply table_add_len in Ea.
+    assert (zlen tb1 <= zlen tb + 1).
+    { revert Ea'. unfold table_add. destruct (find_free tb 0).
+      - intros H; inversion H; subst. rewrite zlen_set_nth; lia.
+      - destruct (zlen tb <? c_cap c).
+        + intros H; inversion H; subst. rewrite zlen_app.
+          match goal with |- context [zlen [?x]] => replace (zlen [x]) with 1 by reflexivity end. lia.
+        + destruct (find_idle tb 0 now); [|discriminate].
+          intros H; inversion H; subst. rewrite zlen_set_nth; lia. }
+    intros H0; inversion H0; subst; rewrite ?zlen_set_nth; lia.
   - destruct (table_get _ _ _ _ _ _) as [[i k]|]; [|intros H; inversion H; subst; lia].
     destruct (f_beyond _); [intros H; inversion H; subst; lia|].
-    destruct (f_sends _ && _); [intros H; inversion H; subst; rewrite ?zlen_set_nth; lia|].
     destruct (f_remove _); intros H; inversion H; subst; rewrite ?zlen_set_nth; lia.
 Qed.
 
 (* ------------------------------------------------------------------ histories *)
 
-Definition frame_ok (tf : Z * bytes) : Prop := 14 <= zlen (snd tf) /\ frame_wf (snd tf) = true.
+Definition frame_ok (tf : Z * bytes) : Prop := 14 <= zlen (snd tf).
 Definition no_fatal (os : list rxo) : Prop := Forall (fun o => is_fatal o = false) os.
 
-Lemma run_safe c orc : all_resolvable c -> forall fs tb,
-  Forall frame_ok fs -> zlen tb + zlen fs <= c_cap c ->
+Lemma run_safe c orc : forall fs tb,
+  Forall frame_ok fs ->
   no_fatal (run c orc tb fs) /\
-  exists tb', run_table c orc tb fs = Some tb' /\ zlen tb' <= zlen tb + zlen fs.
+  exists tb', run_table c orc tb fs = Some tb' /\
+              (zlen tb <= c_cap c -> zlen tb' <= c_cap c).
 Proof.
-  intros Hr. induction fs as [|[now f] r IH]; intros tb Hok Hcap.
-  - split; [constructor|]. exists tb; split; [reflexivity|]. rewrite zlen_nil; lia.
-  - inversion Hok as [|? ? [Hl Hw] Hok']; subst. cbn [snd] in *.
-    rewrite zlen_cons in Hcap. pose proof (zlen_nonneg r).
-    assert (Hnf : ~ table_full c tb now) by (intros (_ & H1 & _); lia).
-    pose proof (rx_safe c orc tb now f Hl Hw Hr Hnf) as Hs.
+  induction fs as [|[now f] r IH]; intros tb Hok.
+  - split; [constructor|]. exists tb; split; [reflexivity|auto].
+  - inversion Hok as [|? ? Hl Hok']; subst. unfold frame_ok in Hl; cbn [snd] in Hl.
+    pose proof (rx_not_fatal c orc tb now f Hl) as Hs.
     cbn [run run_table]. destruct (rx c orc tb now f) as [o tb1] eqn:E. cbn [fst] in Hs.
     rewrite Hs. apply rx_table_len in E.
-    destruct (IH tb1 Hok' ltac:(lia)) as [N (tb' & Ht & Hlen)].
-    split; [constructor; assumption|]. exists tb'; split; [exact Ht|]. rewrite zlen_cons; lia.
+    destruct (IH tb1 Hok') as [N (tb' & Ht & Hlen)].
+    split; [constructor; assumption|]. exists tb'; split; [exact Ht|]. intros; apply Hlen; lia.
 Qed.
+
+(* the full statement of the property *)
+Definition C02_full : Prop :=
+  forall c orc tb frames, Forall (fun tf : Z * bytes => 14 <= zlen (snd tf)) frames ->
+                          no_fatal (run c orc tb frames).
+
+Lemma full_holds : C02_full.
+Proof. intros c orc tb frames H. exact (proj1 (run_safe c orc frames tb H)). Qed.
 
 Lemma run_app c orc : forall fs tb tb' rest,
   run_table c orc tb fs = Some tb' ->
@@ -400,21 +372,22 @@ Proof.
   intros H; inversion H; reflexivity.
 Qed.
 
-Lemma survive_then_probe c orc hostile t probe ev :
-  all_resolvable c -> Forall frame_ok hostile -> zlen hostile <= c_cap c ->
-  udp_probe_of c probe = Some ev ->
-  no_fatal (run c orc [] hostile) /\
-  run c orc [] (hostile ++ [(t, probe)]) = run c orc [] hostile ++ [RUdpEvent ev].
+Lemma survive_then_probe c orc tb hostile t probe ev :
+  Forall frame_ok hostile -> udp_probe_of c probe = Some ev ->
+  no_fatal (run c orc tb (hostile ++ [(t, probe)])) /\
+  run c orc tb (hostile ++ [(t, probe)]) = run c orc tb hostile ++ [RUdpEvent ev].
 Proof.
-  intros Hr Hok Hcap Hp.
-  destruct (run_safe c orc Hr hostile [] Hok ltac:(rewrite zlen_nil; lia)) as [N (tb' & Ht & _)].
-  split; [exact N|]. rewrite (run_app c orc hostile [] tb' _ Ht).
-  cbn [run]. rewrite (rx_probe c orc tb' t probe ev Hp). reflexivity.
+  intros Hok Hp.
+  destruct (run_safe c orc hostile tb Hok) as [N (tb' & Ht & _)].
+  assert (E : run c orc tb (hostile ++ [(t, probe)]) = run c orc tb hostile ++ [RUdpEvent ev]).
+  { rewrite (run_app c orc hostile tb tb' _ Ht). cbn [run].
+    rewrite (rx_probe c orc tb' t probe ev Hp). reflexivity. }
+  split; [|exact E]. rewrite E. apply Forall_app; split; [exact N|]. constructor; [reflexivity|constructor].
 Qed.
 
 (* ------------------------------------------------------------------ connection flood *)
 
-(* a pure SYN to one of my addresses from an answerable peer: the 4-tuple it opens *)
+(* a pure SYN to one of my addresses (not port 22): the 4-tuple it opens *)
 Definition answered_syn (c : cfg) (f : bytes) : option (Z * Z * Z * Z) :=
   match ip_of f with
   | Some (Ok ip) =>
@@ -425,7 +398,7 @@ Definition answered_syn (c : cfg) (f : bytes) : option (Z * Z * Z * Z) :=
             else if negb (is_me c (ip_dst ip)) then None
             else if (t_sport h =? 22) || (t_dport h =? 22) then None
             else if has_flag h SYN && negb (has_flag h ACK)
-                 then if resolve c (ip_src ip) then Some (ip_src ip, t_sport h, ip_dst ip, t_dport h) else None
+                 then Some (ip_src ip, t_sport h, ip_dst ip, t_dport h)
                  else None
         | TPanic _ => None
         end
@@ -435,13 +408,14 @@ Definition answered_syn (c : cfg) (f : bytes) : option (Z * Z * Z * Z) :=
 
 Definition tcb_of (q : Z * Z * Z * Z) (st now : Z) : tcb :=
   let '(sip, sp, dip, dp) := q in mkTcb sip sp dip dp st now.
+Definition q_sip (q : Z * Z * Z * Z) : Z := let '(sip, _, _, _) := q in sip.
 
 Lemma rx_answered_syn c orc tb now f q :
   answered_syn c f = Some q ->
   rx c orc tb now f =
     match table_add (c_cap c) tb now (tcb_of q S_LISTEN now) with
-    | None => (RFatal SITE_TABLE_FULL, tb)
-    | Some (i, tb') => (RTcp 1, set_nth tb' i (Some (tcb_of q S_SYNRCVD now)))
+    | None => (RIgnored 10, tb)
+    | Some (i, tb') => (RTcp 1 (resolve c (q_sip q)), set_nth tb' i (Some (tcb_of q S_SYNRCVD now)))
     end.
 Proof.
   unfold answered_syn, ip_of, rx.
@@ -455,8 +429,7 @@ Proof.
   destruct (negb (is_me c (ip_dst ip))); [discriminate|].
   destruct (_ || _); [discriminate|].
   destruct (has_flag h SYN && negb (has_flag h ACK)); [|discriminate].
-  destruct (resolve c (ip_src ip)); [|discriminate].
-  intros H; inversion H; subst. cbn [tcb_of k_sip k_sport k_dip k_dport]. reflexivity.
+  intros H; inversion H; subst. cbn [tcb_of q_sip k_sip k_sport k_dip k_dport]. reflexivity.
 Qed.
 
 Definition ftab (q : Z * Z * Z * Z) (ts : list Z) : table :=
@@ -492,8 +465,8 @@ Proof. unfold ftab; rewrite map_app; reflexivity. Qed.
 Lemma rx_flood_step c orc f q ts now :
   answered_syn c f = Some q -> Forall (fun t => now - t <= 30000) ts ->
   rx c orc (ftab q ts) now f =
-    if zlen ts <? c_cap c then (RTcp 1, ftab q (ts ++ [now]))
-    else (RFatal SITE_TABLE_FULL, ftab q ts).
+    if zlen ts <? c_cap c then (RTcp 1 (resolve c (q_sip q)), ftab q (ts ++ [now]))
+    else (RIgnored 10, ftab q ts).
 Proof.
   intros Ha Hw. rewrite (rx_answered_syn c orc _ now f q Ha).
   unfold table_add. rewrite find_free_ftab, zlen_ftab.
@@ -512,7 +485,8 @@ Qed.
 
 Lemma flood_below c orc f q lo : answered_syn c f = Some q -> forall us ts,
   Forall (in_window lo) us -> Forall (in_window lo) ts -> zlen ts + zlen us <= c_cap c ->
-  run c orc (ftab q ts) (map (fun t => (t, f)) us) = repeat (RTcp 1) (length us) /\
+  run c orc (ftab q ts) (map (fun t => (t, f)) us) =
+    repeat (RTcp 1 (resolve c (q_sip q))) (length us) /\
   run_table c orc (ftab q ts) (map (fun t => (t, f)) us) = Some (ftab q (ts ++ us)).
 Proof.
   intros Ha. induction us as [|u r IH]; intros ts Hu Ht Hc.
@@ -526,28 +500,47 @@ Proof.
     rewrite R, T. rewrite <- app_assoc. cbn [app length repeat]. split; reflexivity.
 Qed.
 
-Lemma map_const_repeat {A B} (l : list A) (y : B) : map (fun _ => y) l = repeat y (length l).
-Proof. induction l; cbn; [reflexivity|f_equal; assumption]. Qed.
-
-Lemma flood_closed_form c orc f q lo us1 u us2 :
-  answered_syn c f = Some q -> zlen us1 = c_cap c ->
-  Forall (in_window lo) (us1 ++ u :: us2) ->
-  run c orc [] (map (fun t => (t, f)) (us1 ++ u :: us2)) =
-    repeat (RTcp 1) (length us1) ++ RFatal SITE_TABLE_FULL :: repeat RDead (length us2).
+(* on a full table of fresh half-open connections every further SYN is dropped and the
+   table stays as it is *)
+Lemma flood_full c orc f q lo ts : answered_syn c f = Some q ->
+  c_cap c <= zlen ts -> Forall (in_window lo) ts -> forall us, Forall (in_window lo) us ->
+  run c orc (ftab q ts) (map (fun t => (t, f)) us) = repeat (RIgnored 10) (length us) /\
+  run_table c orc (ftab q ts) (map (fun t => (t, f)) us) = Some (ftab q ts).
 Proof.
-  intros Ha Hc Hw. apply Forall_app in Hw. destruct Hw as [H1 H2].
-  inversion H2 as [|? ? Hu H3]; subst.
-  destruct (flood_below c orc f q lo Ha us1 [] H1 (Forall_nil _) ltac:(rewrite zlen_nil; lia)) as [R T].
-  change (@nil (option tcb)) with (ftab q []). rewrite map_app.
-  rewrite (run_app c orc _ (ftab q []) _ _ T), R. f_equal.
-  cbn [map run app]. rewrite (rx_flood_step c orc f q us1 u Ha (window_diff lo us1 u Hu H1)).
-  destruct (zlen us1 <? c_cap c) eqn:E; [lia|]. cbn [is_fatal].
-  rewrite map_const_repeat, map_length. reflexivity.
+  intros Ha Hc Ht. induction us as [|u r IH]; intros Hu.
+  - split; reflexivity.
+  - inversion Hu as [|? ? Hu1 Hu2]; subst. cbn [map run run_table].
+    rewrite (rx_flood_step c orc f q ts u Ha (window_diff lo ts u Hu1 Ht)).
+    destruct (zlen ts <? c_cap c) eqn:E; [lia|]. cbn [is_fatal].
+    destruct (IH Hu2) as [R T]. rewrite R, T. split; reflexivity.
 Qed.
 
-(* what the checker's closed form relies on: RTcp 1 on the empty table means an answered SYN *)
-Lemma rx_tcp1_answered c orc now f tb' :
-  rx c orc [] now f = (RTcp 1, tb') -> exists q, answered_syn c f = Some q.
+(* closed form of a connection flood within 30 s, for every table size: the first c_cap
+   SYNs open a connection, all further ones are dropped, the table holds exactly the
+   first c_cap connections, nothing is fatal *)
+Lemma flood_closed_form c orc f q lo us1 us2 :
+  answered_syn c f = Some q -> zlen us1 = c_cap c ->
+  Forall (in_window lo) (us1 ++ us2) ->
+  run c orc [] (map (fun t => (t, f)) (us1 ++ us2)) =
+    repeat (RTcp 1 (resolve c (q_sip q))) (length us1) ++ repeat (RIgnored 10) (length us2) /\
+  run_table c orc [] (map (fun t => (t, f)) (us1 ++ us2)) = Some (ftab q us1).
+Proof.
+  intros Ha Hc Hw. apply Forall_app in Hw. destruct Hw as [H1 H2].
+  destruct (flood_below c orc f q lo Ha us1 [] H1 (Forall_nil _) ltac:(rewrite zlen_nil; lia)) as [R T].
+  cbn [app] in T.
+  destruct (flood_full c orc f q lo us1 Ha ltac:(lia) H1 us2 H2) as [R2 T2].
+  change (@nil (option tcb)) with (ftab q []) in *. rewrite map_app. split.
+  - rewrite (run_app c orc _ (ftab q []) _ _ T), R, R2. reflexivity.
+  - clear R R2. revert T T2. generalize (ftab q []) as t0.
+    generalize (map (fun t : Z => (t, f)) us1) as l1. generalize (map (fun t : Z => (t, f)) us2) as l2.
+    intros l2 l1. induction l1 as [|[now g] r IH]; intros t0 T T2; cbn [run_table app] in *.
+    + inversion T; subst. exact T2.
+    + destruct (rx c orc t0 now g) as [o t1]. destruct (is_fatal o); [discriminate|]. apply IH; assumption.
+Qed.
+
+(* what the checker's closed form relies on: RTcp 1 on the empty table means a pure SYN *)
+Lemma rx_tcp1_answered c orc now f b tb' :
+  rx c orc [] now f = (RTcp 1 b, tb') -> exists q, answered_syn c f = Some q.
 Proof.
   unfold answered_syn, ip_of, rx.
   destruct (eth_parse f) as [e| |]; try discriminate.
@@ -563,8 +556,7 @@ Proof.
   destruct (negb (is_me c (ip_dst ip))); [discriminate|].
   destruct (_ || _); [discriminate|].
   destruct (has_flag h SYN && negb (has_flag h ACK)).
-  - destruct (table_add _ _ _ _) as [[i tb1]|]; [|discriminate].
-    destruct (resolve c (ip_src ip)); [|discriminate]. eauto.
+  - eauto.
   - cbn [table_get]. discriminate.
 Qed.
 
@@ -587,23 +579,22 @@ Proof. unfold zlen; rewrite repeat_length; reflexivity. Qed.
 Lemma map_repeat {A B} (g : A -> B) x n : map g (repeat x n) = repeat (g x) n.
 Proof. induction n; cbn; [reflexivity|f_equal; assumption]. Qed.
 
-(* the same SYN, c_cap + 1 times at one instant: all answered but the last, which is fatal *)
-Lemma flood_same_frame c orc f q t :
+(* the same SYN n times at one instant, n beyond the table size: survived *)
+Lemma flood_same_frame c orc f q t extra :
   answered_syn c f = Some q -> 0 <= c_cap c ->
-  run c orc [] (repeat (t, f) (Z.to_nat (c_cap c)) ++ [(t, f)]) =
-    repeat (RTcp 1) (Z.to_nat (c_cap c)) ++ [RFatal SITE_TABLE_FULL].
+  run c orc [] (repeat (t, f) (Z.to_nat (c_cap c) + extra)) =
+    repeat (RTcp 1 (resolve c (q_sip q))) (Z.to_nat (c_cap c)) ++ repeat (RIgnored 10) extra.
 Proof.
   intros Ha Hc.
-  pose proof (flood_closed_form c orc f q t (repeat t (Z.to_nat (c_cap c))) t [] Ha) as H.
-  rewrite map_app, map_repeat, repeat_length in H. cbn [map length repeat] in H.
-  apply H.
+  destruct (flood_closed_form c orc f q t (repeat t (Z.to_nat (c_cap c))) (repeat t extra) Ha) as [H _].
   - rewrite zlen_repeat; lia.
-  - apply Forall_app; split.
-    + apply Forall_forall; intros x Hx. apply repeat_spec in Hx; subst. unfold in_window; lia.
-    + constructor; [unfold in_window; lia|constructor].
+  - apply Forall_forall; intros x Hx. apply in_app_or in Hx.
+    destruct Hx as [Hx|Hx]; apply repeat_spec in Hx; subst; unfold in_window; lia.
+  - rewrite <- repeat_app, map_repeat, !repeat_length in H. exact H.
 Qed.
 
-(* a configuration whose default route has a known gateway answers every peer *)
+(* the sent flag: a default route with a known gateway answers every peer *)
+Definition all_resolvable (c : cfg) : Prop := forall ip, resolve c ip = true.
 Lemma default_route_resolves c gw rest :
   c_routes c = mkRoute 0 0 gw :: rest -> mem_z gw (c_arp c) = true -> all_resolvable c.
 Proof.
